@@ -235,6 +235,8 @@ def success_shortcuts(ctx, P, scope, rule="SHORTCUT", tus=None):
                 cond = estr(x.kids[0])
                 if re.search(r"\bret\w* (!=|<|>) 0|\berr\w* (!=|<) 0|== NULL|\bret_id < 0", cond):
                     continue
+                if re.search(r"\((ret|err)\w* = ", cond) and re.search(r"\) (!=|<|>) 0\)?$", cond):
+                    continue        # `if ((ret = f()) != 0) goto out;`: an error exit
                 if stm[0].k == "ReturnStmt":
                     rv = estr(stm[0].kids[0]) if stm[0].kids else ""
                     if rv not in ("ret", "0", "(0)"):
